@@ -2,7 +2,8 @@
    Scope: the scanner (parse/lexer.go).  The generated LALR parser and the compiler are not
    modelled; "never panics / terminates / classifies as a syntax error" for them is exploration
    on the Go side (see notes/C08.md). *)
-From GL Require Import Common.Bytes Front.Lines Front.Lexer Front.LexerFacts Front.LinesFacts.
+From GL Require Import Common.Bytes Front.Lines Front.Lexer Front.LexerFacts Front.LinesFacts
+  Front.Render Front.RenderFacts.
 
 (* every Scan step consumes at least one byte or returns EOF / an error (and never runs out of
    the fuel length+1) *)
@@ -39,3 +40,21 @@ Theorem lexer_lines_correct : forall bs toks,
   Forall (fun t => tk_line t = line_of_offset bs (tk_off t) /\ 0 <= tk_off t < len bs) toks.
 Proof. exact lexer_lines_correct_lemma. Qed.
 Print Assumptions lexer_lines_correct.
+
+(* layout independence: for every list of lexemes and every choice of separators (blank runs of
+   space \t \v \f, line ends LF CR CRLF LFCR, "--" line comments, "--[=*[ ]=*]" block comments;
+   possibly empty wherever the next byte cannot merge with the lexeme: Render.good), lexing the
+   rendering gives back exactly the lexemes' tokens, each on the reference line of its offset.
+   The token stream - hence everything the parser sees - depends on the lexeme list only. *)
+Theorem lex_render : forall items trailer,
+  good items trailer = true -> lex (render items trailer) = LexOk (expected_tokens items trailer).
+Proof. exact lex_render_lemma. Qed.
+Print Assumptions lex_render.
+
+(* corollary: two layouts of the same lexeme list lex to the same sequence of (type, text) *)
+Theorem lex_layout_independent : forall items1 tr1 items2 tr2,
+  good items1 tr1 = true -> good items2 tr2 = true -> map snd items1 = map snd items2 ->
+  exists t1 t2, lex (render items1 tr1) = LexOk t1 /\ lex (render items2 tr2) = LexOk t2 /\
+                map tok_strip t1 = map tok_strip t2.
+Proof. exact lex_layout_independent_lemma. Qed.
+Print Assumptions lex_layout_independent.
